@@ -1,14 +1,40 @@
-HOOK_COMMITS = ["90d925a"]
+HOOK_COMMITS = ["90d925a", "8940632", "5dcbe49"]
 
+CHAIN_NOTE = ("Assumed: delegation.Loader.GetDelegation is a function of (loader, cid) during one check and returns a non-nil token when err == nil; "
+              "time.Now() names one instant per check and After/Before compare abstract instants; fmt.Errorf returns non-nil; "
+              "matchStatement and Args.ToIPLD are used through contracts that are trusted here (matchStatement == sem is the subject of C11). "
+              "Input validity (requires): receiver, loader and arguments non-nil; policies of loadable delegations contain no nil statement.")
+
+CLAIMED["C01"] = dict(
+    text="Proof: verifyProofs is verified against chainOK (non-empty, every delegation names the invocation's subject, audience/issuer alignment link by link, "
+         "root issued by its subject) through an inductive loop invariant over a symbolic proof list of symbolic length; loadProofs is verified against the loader "
+         "function; executionAllowed / ExecutionAllowed are verified to return nil only if allowedSpec (which does not mention the audience) holds. "
+         "A failed obligation is replayed on the real code with a battery of chains (go test -overlay).",
+    note=CHAIN_NOTE, design="DESIGN.md §3 C01/C02/C05")
+CLAIMED["C02"] = dict(
+    text="Proof: the command clause of chainOK (coversSpec link by link, the first delegation covering the invoked command) is part of the verified post-condition of "
+         "verifyProofs and executionAllowed; Command.Covers is verified against coversSpec for all pairs of strings.",
+    note=CHAIN_NOTE, design="DESIGN.md §3 C01/C02/C05")
+CLAIMED["C03"] = dict(
+    text="Proof: Policy.Match returns true exactly when every statement passes (loop invariant); verifyArgs aggregates the policies of every delegation "
+         "(invariants over append) and returns nil only if every statement of every delegation's policy passes on the argument node; "
+         "ExecutionAllowedWithArgsHook is verified to check the arguments returned by the hook. Monotonicity follows from the post-condition being a conjunction over all links and statements.",
+    note=CHAIN_NOTE + " Undecided and not claimed: make(policy.Policy, 0, count) needs the sum of policy lengths to stay below 2^63.", design="DESIGN.md §3 C03")
+CLAIMED["C04"] = dict(
+    text="Proof: both IsValidAt methods are verified against the window specification for every instant and every combination of present/absent bounds "
+         "(strictly inside => valid, strictly outside => invalid); verifyTimeBoundAt is verified with a loop invariant to return nil only if the invocation and "
+         "every delegation are valid at the instant of the check.",
+    note=CHAIN_NOTE, design="DESIGN.md §3 C04")
+CLAIMED["C05"] = dict(
+    text="Proof of the converse direction: for loadProofs, verifyProofs, verifyTimeBoundAt, verifyArgs, Policy.Match and executionAllowed the post-condition "
+         "'spec holds => err == nil' is verified; allowedSpec does not mention audience, metadata, nonce, cause or issue time, so the proved equivalence is the independence statement.",
+    note=CHAIN_NOTE + " Undecided and not claimed: the makeslice bound in verifyArgs (see C03).", design="DESIGN.md §3 C01/C02/C05")
 CLAIMED["C15"] = dict(
     text="Proof: Command.Covers and command.Parse are verified, for every pair of strings, against spec functions taken from the property "
          "(coversSpec = textual prefix + segment boundary; validCmd = leading slash, no trailing slash, lower-case fixed point); "
-         "reflexivity, antisymmetry, transitivity, top-covers-all and no-textual-prefix are proved as lemmas over coversSpec. "
-         "The bridge from coversSpec to 'segments are a list prefix' is the Lean lemma of DESIGN.md App. D.",
-    note="Assumed: strings.HasPrefix/HasSuffix as their definitions; 'no upper-case letters' is read as strings.ToLower(s)==s.",
-    design="DESIGN.md §3 C15",
-)
-for pid, why in {
-    "C01": "check under construction in this session (contracts for verifyProofs not yet registered)",
-}.items():
-    NOT_APPLICABLE[pid] = why
+         "reflexivity, antisymmetry, transitivity, top-covers-all and no-textual-prefix are proved as lemmas over coversSpec.",
+    note="Assumed: strings.HasPrefix/HasSuffix as their definitions; 'no upper-case letters' is read as strings.ToLower(s)==s. "
+         "Not yet machine-checked in this tree: the bridge from coversSpec to 'segments are a list prefix' (Lean lemma, DESIGN.md App. D) and the Join/Segments clause.",
+    design="DESIGN.md §3 C15")
+for pid in ["C06","C07","C08","C09","C10","C11","C12","C13","C14","C16","C17","C18","C19","C20"]:
+    NOT_APPLICABLE[pid] = "contracts for this property are not registered yet in this tree (work in progress; see DESIGN.md §6 staging)"
